@@ -94,6 +94,9 @@ def raw_values(rng, reg, t, thorough):
             vals.append(list(x) + [0] * rng.below(4))
         for _ in range(4 if thorough else 1):
             vals.append(rng.bytes(rng.below(20)))
+        # long texts: 59/60/61 bytes (the frame then crosses 128 bytes), 100, 250
+        for n in (59, 60, 61, 100, 250):
+            vals.append([0x41 + (i * 7 + n) % 26 for i in range(n)] + [0] * rng.below(3))
     elif k == 3:
         keys = t["enums"].get(reg["factory"], [])
         for v in keys:
@@ -181,6 +184,9 @@ def good_value(rng, reg, t):
     if k == 1:
         return rng.bytes(rng.choice([1, 2, 4]))
     if k == 2:
+        if rng.chance(1, 4):   # a long text (user-settable description, long model name)
+            n = rng.choice([60, 64, 72, 100, 130])
+            return [0x41 + (i * 5 + n) % 26 for i in range(n)] + [0] * rng.below(3)
         return list(b"TXT%d" % rng.below(1000)) + [0] * rng.below(3)
     if k == 3:
         keys = t["enums"].get(reg["factory"], [0])
@@ -217,6 +223,8 @@ def gen_c10(rng, t, thorough):
                 if fail_at is not None and i == fail_at:
                     if fail_kind == "flag":
                         react.append([ev_data(get_resp(r["addr"], [], flag=rng.choice([1, 2, 4])))])
+                    elif fail_kind == "flag-odd":     # a refusal with a flags byte outside 1/2/4: still a failure
+                        react.append([ev_data(get_resp(r["addr"], rng.bytes(rng.below(3)), flag=rng.choice([0x08, 0x10, 0x20, 0x40, 0x80, 0x03, 0xFF])))])
                     elif fail_kind == "silent":
                         react += [[] for _ in range(8)]
                     else:                       # undefined enum code / unsupported signed width
@@ -229,7 +237,7 @@ def gen_c10(rng, t, thorough):
                     break
                 react.append([ev_data(get_resp(r["addr"], good_value(rng, r, t)))])
             # independent expectation: how many registers are delivered and how the run ends
-            ncancel = None if cancel == "-" else 0 if cancel == "b" else int(cancel[1:])
+            ncancel = None if cancel == "-" or cancel[0] == "d" else 0 if cancel == "b" else int(cancel[1:])
             exp_n = len(order)
             exp_end = "ok"
             if fail_at is not None and fail_at < exp_n and (ncancel is None or fail_at < ncancel):
@@ -244,10 +252,14 @@ def gen_c10(rng, t, thorough):
         for hmask in range(16):
             mk("c10-handlers", hmask, "all", "-", "s")
         mk("c10-map", 15, "all", "-", "m")
+        # a context that carries a deadline which is not reached: nothing is cancelled
+        mk("c10-deadline", 15, "all", "d190", "s")
+        mk("c10-deadline", rng.below(16), "all", "d150", "s")
+        mk("c10-deadline", 15, "all", "d199", "m")
         # device failure at every register position
         positions = range(n) if thorough or n <= 50 else range(n)
         for i in positions:
-            mk("c10-fail", 15, "all", "-", "s", fail_at=i, fail_kind=rng.choice(["flag", "flag", "decode", "silent"]))
+            mk("c10-fail", 15, "all", "-", "s", fail_at=i, fail_kind=rng.choice(["flag", "flag", "flag-odd", "decode", "silent"]))
             if thorough or i % 3 == 0:
                 mk("c10-fail-map", 15, "all", "-", "m", fail_at=i, fail_kind="flag")
         # cancellation before the run, inside the k-th callback, inside the k-th Write
